@@ -49,12 +49,17 @@ pub fn numeric_values(thorough: bool) -> Vec<(&'static str, Vec<u8>)> {
 }
 
 pub fn string_values(thorough: bool) -> Vec<(&'static str, Vec<u8>)> {
-    let mut v: Vec<(&'static str, Vec<u8>)> = vec![("empty", vec![]), ("64KiB", vec![b'z'; 65536]), ("invalid-utf8", vec![0xff, 0xfe, 0x80, 0xc0]), ("nul-crlf", b"a\x00b\r\nc".to_vec())];
+    let mut v: Vec<(&'static str, Vec<u8>)> = vec![("empty", vec![]), ("64KiB", b"@@LAZY:64KiB".to_vec()), ("invalid-utf8", vec![0xff, 0xfe, 0x80, 0xc0]), ("nul-crlf", b"a\x00b\r\nc".to_vec())];
     if thorough {
-        v.push(("16MiB", vec![b'y'; 16 << 20]));
+        v.push(("16MiB", b"@@LAZY:16MiB".to_vec()));
         v.push(("1B", b"q".to_vec()));
     }
     v
+}
+
+/// large values are materialised only when a case runs (the case list itself stays small)
+fn materialize(cmd: &[Vec<u8>]) -> Vec<Vec<u8>> {
+    cmd.iter().map(|a| if a.as_slice() == b"@@LAZY:16MiB" { vec![b'y'; 16 << 20] } else if a.as_slice() == b"@@LAZY:64KiB" { vec![b'z'; 65536] } else { a.clone() }).collect()
 }
 
 pub fn id_values() -> Vec<(&'static str, Vec<u8>)> {
@@ -233,7 +238,7 @@ fn run_case(w: &mut W, c: &Case) -> Result<(String, Value), String> {
     let mut cli = w.h.srv.as_ref().unwrap().connect().map_err(|e| format!("connect: {:?}", e))?;
     let bytes = match &c.raw {
         Some(b) => b.clone(),
-        None => resp::cmd(&c.cmd),
+        None => resp::cmd(&materialize(&c.cmd)),
     };
     send_stepping(&mut w.h, &mut cli, &bytes)?;
     let (got, err) = w.h.collect(&mut cli, 1, 3 + bytes.len() / 4096);
